@@ -214,3 +214,32 @@ func (f *CatalogFactoryPP) PostProcessComponentFactory(factory container.Factory
 	f.Seen, f.Names = len(names), strings.Join(names, ",")
 	return nil
 }
+
+// NeedyFactoryAware / NeedyRegistryAware are ordinary eager components with required points and an Init of
+// their own that additionally implement ComponentFactoryPostProcessor resp. DefinitionRegistryPostProcessor
+// (a "factory aware" service). They are components like any other: their points must be satisfiable and
+// their Init must succeed for the start to succeed.
+type NeedyCore struct {
+	Req      IA     `wire:"needy-dep"`
+	Cfg      string `value:"${needy.key}"`
+	FailInit bool
+	Inits    int
+}
+
+func (n *NeedyCore) Init() error {
+	n.Inits++
+	if n.FailInit {
+		return errors.New("needy component: Init failed")
+	}
+	return nil
+}
+
+type NeedyFactoryAware struct{ NeedyCore }
+type NeedyRegistryAware struct{ NeedyCore }
+
+func (*NeedyFactoryAware) Naming() string                                      { return "needy-factory-aware" }
+func (*NeedyFactoryAware) PostProcessComponentFactory(container.Factory) error { return nil }
+func (*NeedyRegistryAware) Naming() string                                     { return "needy-registry-aware" }
+func (*NeedyRegistryAware) PostProcessDefinitionRegistry(container.DefinitionRegistry, any, string) error {
+	return nil
+}
